@@ -30,13 +30,6 @@ def run(ctx):
     ctx.touch(fa)
     # the functions that make up header admission: add_header and the private helpers it is built from (where the list is pushed to)
     admit = {d for dep, d in fa.inlined if "{closure" not in d} | {add_header.id}
-    def reaches_admit(fid, depth=0):
-        if fid in admit:
-            return True
-        g_ = facts.fns.get(fid)
-        if g_ is None or not g_.rec.get("local") or depth > 3:
-            return False
-        return False
     NAME, VALUE = ("sym", "incoming-name"), ("sym", "incoming-value")
     hdr_fields = [x["name"] for x in facts.adt(HEADER)["variants"][0]["fields"]]
     fld_field = [x["name"] for x in facts.adt(HEADER)["variants"][0]["fields"] if x["ty"] == HFIELD][0]
